@@ -986,6 +986,83 @@ def check_network(ctx, GeoGrid, GeoNetwork, lat, lon, A, directed, wtype,
                               {**case, "lib": None if not ok else v,
                                "want": wmx}, cid)
             ctx.count("link_measures_checked")
+    # area-weighted frequency distributions: whatever the binning, each bin
+    # holds the cos-lat share of the nodes whose value falls into it, bins
+    # are ordered by value, so every partial sum of the histogram is the
+    # cos-lat share of "all nodes with value <= v" for some occurring v
+    if cl.sum() > 1e-6:
+        share = cl / cl.sum()
+        rr = ctx.rng("geodist", cid)
+
+        def area_hist(label, seq, res, cumulative):
+            ctx.count("area_weighted_distributions")
+            try:
+                hist, _err, lbb = (np.asarray(x, dtype=np.float64)
+                                   for x in res)
+            except Exception as e:                  # noqa: BLE001
+                ctx.violation(f"{label}:malformed-result",
+                              {**case, "exc": repr(e)}, cid)
+                return
+            if cumulative:
+                # cumulative from above: c[i] = sum_{j>=i} h[j]
+                hist = hist - np.append(hist[1:], 0.0)
+            order = np.argsort(seq, kind="stable")
+            sv = seq[order]
+            ps = np.concatenate([[0.0], np.cumsum(share[order])])
+            ends = np.concatenate(
+                [[0], np.flatnonzero(sv[1:] != sv[:-1]) + 1, [len(sv)]])
+            P = ps[ends]
+            cs = np.cumsum(hist)
+            gap = np.abs(cs[:, None] - P[None, :]).min(axis=1)
+            lo_share = share[seq == seq.min()].sum()
+            # cos-lat in single precision (the pole comes out as -4.4e-8)
+            tol = 2e-6
+            if abs(cs[-1] - 1) > tol or (hist < -tol).any() \
+                    or gap.max() > tol \
+                    or hist[0] < lo_share - tol \
+                    or abs(lbb[0] - seq.min()) > 1e-9 * max(1, abs(seq.min())):
+                ctx.violation(f"{label}:ne-cos-lat-share-of-the-nodes-per-bin",
+                              {**case, "seq": seq, "hist": hist, "lbb": lbb,
+                               "cos_lat": cl, "cumulative": cumulative}, cid)
+
+        kdeg = A.sum(axis=0).astype(np.float64)
+        seqs = [("degree", kdeg),
+                ("ties", rr.integers(0, 3, n).astype(np.float64)),
+                ("generic", rr.normal(size=n))]
+        lab, seq = seqs[int(rr.integers(0, 3))]
+        nb = int(rr.integers(1, 9))
+        if seq.max() > seq.min():
+            for cum, meth in ((False, "geographical_distribution"),
+                              (True, "geographical_cumulative_distribution")):
+                ok, res = ctx.call(getattr(net, meth), seq.copy(), nb)
+                ctx.evals()
+                if not ok:
+                    ctx.violation(f"{meth}:raises:{type(res).__name__}",
+                                  {**case, "seq": seq, "n_bins": nb,
+                                   "exc": repr(res)}, cid)
+                    continue
+                area_hist(f"{meth}:{lab}", seq, res, cum)
+        fam = ["area_weighted_connectivity"] + (
+            ["inarea_weighted_connectivity", "outarea_weighted_connectivity"]
+            if directed else [])
+        for base in fam:
+            ok, v = ctx.call(getattr(net, base))
+            if not ok:
+                continue
+            v = np.asarray(v, dtype=np.float64)
+            if not v.max() > v.min():
+                continue
+            for cum, suffix in ((False, "_distribution"),
+                                (True, "_cumulative_distribution")):
+                ok, res = ctx.call(getattr(net, base + suffix), nb)
+                ctx.evals()
+                if not ok:
+                    ctx.violation(f"{base}{suffix}:raises:"
+                                  f"{type(res).__name__}",
+                                  {**case, "n_bins": nb, "exc": repr(res)},
+                                  cid)
+                    continue
+                area_hist(base + suffix, v, res, cum)
     # link distance distribution (histogram over the links)
     if A.sum() > 0 and D.max() > 0.05:
         for gt, Dm in (("spherical", D), ("euclidean", None)):
